@@ -67,16 +67,28 @@ pub fn run(ctx: Ctx) -> ! {
         }
     };
     crate::quiet::silence_stderr();
-    // every base also in a variant that carries auxiliary data with the right
-    // hash (the ledger size has a different last part then: aux bytes, not null)
+    // every base also in variants whose LAST part of the ledger size is spelled differently:
+    // auxiliary data with the right hash (aux bytes instead of null), and the empty slot
+    // written as CBOR `undefined` instead of `null` (1 byte either way). A variant the real
+    // decoder rejects is counted and skipped.
     let mut all_bases = vec![];
+    let mut variants_rejected_by_decoder: BTreeMap<String, u64> = BTreeMap::new();
     for b in bases::bases() {
         let mut with_aux = b.clone();
         with_aux.tx.aux = true;
         with_aux.tx.aux_hash = txlab::HashSpec::Right;
         with_aux.base = format!("{}+aux", with_aux.base);
+        let mut undef = b.clone();
+        undef.tx.spelling.aux_slot_undefined = true;
+        undef.base = format!("{}+aux-slot-undefined", undef.base);
         all_bases.push(b);
-        all_bases.push(with_aux);
+        for v in [with_aux, undef] {
+            if matches!(exec::run(&txlab::build(&v)), Verdict::Undecodable(_)) {
+                *variants_rejected_by_decoder.entry(format!("{}:{}", v.era.name(), v.base.split('+').skip(1).collect::<Vec<_>>().join("+"))).or_default() += 1;
+            } else {
+                all_bases.push(v);
+            }
+        }
     }
     for base in all_bases {
         let era = base.era;
@@ -234,8 +246,9 @@ pub fn run(ctx: Ctx) -> ! {
     let cov = mc_core::cov! {
         "evaluations" => evals.load(Ordering::Relaxed),
         "distinct_nontrivial" => distinct.lock().unwrap().len(),
-        "rule" => "fixtures = every post-Byron base (B1/B2/B3 per era) + every single deviation of it that is accepted as generated (fee and size-limit dimensions excluded); each fixture x {fee = a*L+b, a*L+b-1, max_tx_size = L, L-1}, L read from the wire bytes of the re-priced transaction; plus, per base, a scan of fee deltas -200..200 and limit deltas -4..4 (diagnostic); non-trivial = validate_tx ran; distinct by Blake2b of (tx, UTxO, environment)",
+        "rule" => "fixtures = every post-Byron base (B1/B2/B3 per era, each also with auxiliary data + right hash and with the empty auxiliary-data slot spelled `undefined`) + every single deviation of it that is accepted as generated (fee and size-limit dimensions excluded); each fixture x {fee = a*L+b, a*L+b-1, max_tx_size = L, L-1}, L read from the wire bytes of the re-priced transaction; plus, per base, a scan of fee deltas -200..200 and limit deltas -4..4 (diagnostic); non-trivial = validate_tx ran; distinct by Blake2b of (tx, UTxO, environment)",
         "fixtures_by_era" => fx,
+        "base_variants_rejected_by_decoder" => variants_rejected_by_decoder,
         "accepted_by_era" => acc,
         "validator_boundaries" => diag,
         "findings" => found.summary(),
